@@ -194,6 +194,10 @@ pub trait VerifVal {
     fn verif_quantities(&self) -> (u64, u64);
     /// 16 identifying bytes of the value (its order id)
     fn verif_id(&self) -> [u8; 16];
+    /// distinguishes ids of different formats that share the same bytes
+    fn verif_tag(&self) -> u8 {
+        0
+    }
 }
 
 impl VerifKey for crate::orders::OrderId {
@@ -209,6 +213,12 @@ impl VerifVal for std::sync::Arc<crate::orders::OrderType<()>> {
     fn verif_id(&self) -> [u8; 16] {
         self.id().as_bytes()
     }
+    fn verif_tag(&self) -> u8 {
+        match self.id() {
+            crate::orders::OrderId::Uuid(_) => 0,
+            crate::orders::OrderId::Ulid(_) => 1,
+        }
+    }
 }
 
 /// Listing seam, called by `OrderQueue::to_vec` before its timestamp sort.
@@ -217,7 +227,7 @@ pub fn order_listing<V: VerifVal>(orders: &mut [V]) {
     let Some(mut k) = LISTING_PERM.with(|p| p.get()) else {
         return;
     };
-    orders.sort_by_key(|o| o.verif_id());
+    orders.sort_by_key(|o| (o.verif_id(), o.verif_tag()));
     // k-th permutation, factorial number system (k = 0 is the identity)
     let n = orders.len();
     for i in 0..n {
